@@ -17,6 +17,9 @@
 //	R. (pair.go) the real pair again: the configuration is reloaded (proxy added / removed / remote port changed / visitor
 //	   added, through Service.UpdateAllConfigurer) while frpc sits in its login back-off during an outage (listener down,
 //	   refusal, server restart, black hole); the recovered session must run the LAST configuration at both ends.
+//	H. (holder.go) a registration that fails once under a live login must be retried by the session itself: refused because
+//	   a silently dead scripted peer still holds the name / port at a real frps (torn down seconds later; frpc's 30 s
+//	   start-error retry must heal it), or never answered by the scripted server (20 s wait-for-response re-send).
 //	L. (livepeer.go) live peers with slow requests: three scripted sessions ping every second on a server with timeout
 //	   3 / 5 s while one of them has xtcp visitor requests pending whose owner never answers (10 s each) and bursts of
 //	   registrations; none may be torn down for 2x timeout + 3 s (control peer and lag sentinel guard the verdict).
@@ -92,7 +95,7 @@ type caseRef struct {
 func main() {
 	defer h.DisableGC(10)()
 	run = h.NewRun(prop, "fault_enumeration")
-	run.Rule = "one case = one fault sequence: (monitor family, heartbeat interval/timeout in {1/2,1/3,2/5}, tcpMux on/off, number of configured proxies in {1,20,150}, the moment at which the peer falls silent or the ordered list of faults with their PRNG-chosen durations); distinct = distinct (family, interval/timeout, mux, proxies, moment / fault-kind list); family L = slow-request kind x mux x timeout; family G = unread-backlog silence x mux; family F = frozen loss + n refused logins x mux x timeout; family R = (outage kind, reload kind) pairs with the reload applied during the outage; family E adds interval = timeout in {1,2,3} (refused by validation, or the answered session must stay up); a case is non-trivial only if its session was established and at least one timed teardown or one recovery was observed"
+	run.Rule = "one case = one fault sequence: (monitor family, heartbeat interval/timeout in {1/2,1/3,2/5}, tcpMux on/off, number of configured proxies in {1,20,150}, the moment at which the peer falls silent or the ordered list of faults with their PRNG-chosen durations); distinct = distinct (family, interval/timeout, mux, proxies, moment / fault-kind list); family H = (refused by a dead holder: same name / same port | unanswered first NewProxy) x mux; family L = slow-request kind x mux x timeout; family G = unread-backlog silence x mux; family F = frozen loss + n refused logins x mux x timeout; family R = (outage kind, reload kind) pairs with the reload applied during the outage; family E adds interval = timeout in {1,2,3} (refused by validation, or the answered session must stay up); a case is non-trivial only if its session was established and at least one timed teardown or one recovery was observed"
 	run.Assumptions = []string{
 		"upper bounds are bounded-progress watchdogs: teardown 3x configured timeout + 10 s, recovery 50 s (20 s max login back-off x 1.1 + 10 s dial timeout + 15 s); later events would be reported as violations of the bounded restatement",
 		"lower bounds use the harness clock stamp taken before the last valid ping / pong (or login reply) was written, and the stamp taken after the close was observed: load can only widen the measured span",
@@ -109,6 +112,7 @@ func main() {
 	nC := run.N(24, 90)
 	nE := run.N(3, 6)
 	nR := run.N(8, 16)
+	nH := run.N(4, 12) // failed registrations retried by the running session
 	nL := run.N(4, 16) // live peers with slow requests
 	nG := run.N(2, 6)  // silent peers with an unread backlog
 	nF := run.N(2, 6)  // frozen loss followed by a refused login
@@ -138,6 +142,9 @@ transport.maxPoolCount = 2
 	// interleave the families so that long and short cases mix on the workers
 	var plan []caseRef
 	for i := 0; i < nA || i < nB || i < nC; i++ {
+		if i < nH { // the longest cases (real 20 s / 30 s retry timers) start first
+			plan = append(plan, caseRef{"H", i})
+		}
 		if i < nR {
 			plan = append(plan, caseRef{"R", i})
 		}
@@ -185,6 +192,8 @@ transport.maxPoolCount = 2
 			backlogCase(c, ref.k)
 		case "L":
 			livePeerCase(c, ref.k)
+		case "H":
+			holderCase(c, ref.k)
 		case "F":
 			frozenRefusedCase(c, ref.k)
 		}
